@@ -443,6 +443,14 @@ func c06Cases(c *Ctx, w *prove.World, wt wireType, m, u *ssa.Function) {
 			}
 			continue
 		}
+		if _, have := decCase[k]; !have && len(decCase) == 0 && len(delegate) == 0 {
+			// symmetric: Unmarshal never branches on the format constants (a layout
+			// table indexed by the format, flags returned by a helper)
+			for _, rule := range []string{"extract", "sym"} {
+				c.NotDecided(rule, key, pos, "Unmarshal has no `BufferFormat == "+k+"` branch whose reads could be taken as this format's layout (the layout is selected by a table or a helper)")
+			}
+			continue
+		}
 		enc := encCase[k]
 		dec := append(append([]codec.Atom{}, common...), decCase[k]...)
 		for i := range dec {
